@@ -14,6 +14,9 @@ set_option linter.unusedSectionVars false
   point is a boundary point of the tetrahedron (`TetBdry`: a convex combination of the four vertices with a zero weight; `tetBdry_mem`: a member) and no member is closer to the query
   point.  This goes through all 4 vertex tests, 6 `check_edge` calls and 4 `check_face` calls with the arguments the code passes
   (normals reused with flipped signs, determinants reused in permuted order).
+* `tet_project_location` — the location tag reproduces the returned point: `OnVertex(i)` is vertex `i`, `OnEdge(i, [b0,b1])`
+  is `b0·A + b1·B` on the code's edge `i` (`0:ab 1:ac 2:ad 3:bc 4:bd 5:cd`), `OnFace(i, [b0,b1,b2])` is `b0·A + b1·B + b2·C` on
+  the code's face `i` (`0:abc 1:abd 2:acd 3:bcd`), all weights non-negative with sum 1 (`TetLocOk`).
 * `tet_project_solid` — the only other non-panicking answer is `(true, pt)` tagged `OnSolid`, and only for `solid = true`.
 * `tet_project_no_assert` — the `assert!(denom != 0.0)` of `check_face` never fires; the only panic of the function is the
   documented `unimplemented!()` of the final `solid = false` branch.
@@ -39,6 +42,31 @@ theorem tetBdry_mem (s : Tetrahedron K) (q : V3 K) (h : TetBdry s q) : TetMem s 
   subst e
   exact ⟨t1, t2, t3, h1, h2, h3, by linarith, by rw [hx]; ring, by rw [hy]; ring, by rw [hz]; ring⟩
 
+/-- the code's edge numbering `0:ab 1:ac 2:ad 3:bc 4:bd 5:cd` -/
+def tetEdgeOf (s : Tetrahedron K) (i : Nat) : Option (V3 K × V3 K) :=
+  match i with
+  | 0 => some (s.a, s.b) | 1 => some (s.a, s.c) | 2 => some (s.a, s.d)
+  | 3 => some (s.b, s.c) | 4 => some (s.b, s.d) | 5 => some (s.c, s.d) | _ => none
+/-- the code's face numbering `0:abc 1:abd 2:acd 3:bcd` -/
+def tetFaceOf (s : Tetrahedron K) (i : Nat) : Option (V3 K × V3 K × V3 K) :=
+  match i with
+  | 0 => some (s.a, s.b, s.c) | 1 => some (s.a, s.b, s.d) | 2 => some (s.a, s.c, s.d) | 3 => some (s.b, s.c, s.d) | _ => none
+def tetVertexOf (s : Tetrahedron K) (i : Nat) : Option (V3 K) :=
+  match i with | 0 => some s.a | 1 => some s.b | 2 => some s.c | 3 => some s.d | _ => none
+
+/-- the location tag describes the point: `OnVertex(i)` = vertex `i`; `OnEdge(i, [b0, b1])` = `b0·A + b1·B` on edge `i = (A, B)`
+with `b0, b1 ≥ 0`, `b0 + b1 = 1`; `OnFace(i, [b0, b1, b2])` = `b0·A + b1·B + b2·C` on face `i = (A, B, C)` with non-negative
+weights of sum 1 -/
+def TetLocOk (s : Tetrahedron K) (l : TetLoc K) (q : V3 K) : Prop :=
+  letI := fieldNum K (fun x => x)
+  match l with
+  | .vertex i => tetVertexOf s i = some q
+  | .edge i b0 b1 => 0 ≤ b0 ∧ 0 ≤ b1 ∧ b0 + b1 = 1 ∧
+      ∃ A B, tetEdgeOf s i = some (A, B) ∧ q = (A.smul b0).add (B.smul b1)
+  | .face i b0 b1 b2 => 0 ≤ b0 ∧ 0 ≤ b1 ∧ 0 ≤ b2 ∧ b0 + b1 + b2 = 1 ∧
+      ∃ A B C, tetFaceOf s i = some (A, B, C) ∧ q = ((A.smul b0).add (B.smul b1)).add (C.smul b2)
+  | .solid => True
+
 private theorem nearest_mono (p v q q' : V3 K) (h : dist2K p v ≤ dist2K p q') (e : q = q') : dist2K p v ≤ dist2K p q := by
   rw [e]; exact h
 
@@ -51,12 +79,13 @@ private theorem edge_finish (s : Tetrahedron K) (pt : V3 K) (i : Nat) (A AP AB w
     (h : letI := fieldNum K sq; (tetCheckEdge i A n1 n2 AP AB (AP.dot AB) y).2.2 = some r)
     (hrep : letI := fieldNum K sq; ∀ q, TetMem s q → ∃ β γ δ : K, 0 ≤ γ ∧ 0 ≤ δ ∧
       q = ((A.add (AB.smul β)).add (w1.smul γ)).add (w2.smul δ))
-    (hseg : letI := fieldNum K sq; ∀ u : K, 0 ≤ u → u ≤ 1 → TetBdry s (A.add (AB.smul u))) :
-    r.1.inside = false ∧ TetBdry s r.1.pt ∧ ∀ q, TetMem s q → dist2K pt r.1.pt ≤ dist2K pt q := by
+    (hseg : letI := fieldNum K sq; ∀ u : K, 0 ≤ u → u ≤ 1 → TetBdry s (A.add (AB.smul u)))
+    (hloc : letI := fieldNum K sq; ∀ u : K, 0 ≤ u → u ≤ 1 → TetLocOk s (TetLoc.edge i (1 - u) u) (A.add (AB.smul u))) :
+    r.1.inside = false ∧ TetBdry s r.1.pt ∧ (∀ q, TetMem s q → dist2K pt r.1.pt ≤ dist2K pt q) ∧ TetLocOk s r.2 r.1.pt := by
   letI := fieldNum K sq
   subst hn1 hn2 hy hpt
-  obtain ⟨u, hu0, hu1, hp, _, hins, _, _, _⟩ := tet_edge_sound sq i A AP AB w1 w2 r h
-  refine ⟨hins, ?_, ?_⟩
+  obtain ⟨u, hu0, hu1, hp, htag, hins, _, _, _⟩ := tet_edge_sound sq i A AP AB w1 w2 r h
+  refine ⟨hins, ?_, ?_, by rw [hp, htag]; exact hloc u hu0 hu1⟩
   · rw [hp]; exact hseg u hu0 hu1
   · intro q hq
     obtain ⟨β, γ, δ, hγ, hδ, e⟩ := hrep q hq
@@ -75,14 +104,16 @@ private theorem face_finish (hs : LawfulSqrt sq) (s : Tetrahedron K) (pt : V3 K)
     (hrep : letI := fieldNum K sq; ∀ q, TetMem s q → ∃ β γ δ : K, 0 ≤ δ ∧
       q = ((A.add (AB.smul β)).add (AC.smul γ)).add (AD.smul δ))
     (htri : letI := fieldNum K sq; ∀ b0 b1 b2 : K, 0 ≤ b0 → 0 ≤ b1 → 0 ≤ b2 → b0 + b1 + b2 = 1 →
-      TetBdry s (((A.smul b0).add ((A.add AB).smul b1)).add ((A.add AC).smul b2))) :
-    pp.inside = false ∧ TetBdry s pp.pt ∧ ∀ q, TetMem s q → dist2K pt pp.pt ≤ dist2K pt q := by
+      TetBdry s (((A.smul b0).add ((A.add AB).smul b1)).add ((A.add AC).smul b2)))
+    (hloc : letI := fieldNum K sq; ∀ b0 b1 b2 : K, 0 ≤ b0 → 0 ≤ b1 → 0 ≤ b2 → b0 + b1 + b2 = 1 →
+      TetLocOk s (TetLoc.face i b0 b1 b2) (((A.smul b0).add ((A.add AB).smul b1)).add ((A.add AC).smul b2))) :
+    pp.inside = false ∧ TetBdry s pp.pt ∧ (∀ q, TetMem s q → dist2K pt pp.pt ≤ dist2K pt q) ∧ TetLocOk s l pp.pt := by
   letI := fieldNum K sq
   subst hB hC hBP hCP hd1 hd2 hd3 hpt
   obtain ⟨b0, b1, b2, h0, h1, h2, hsum, hres, _, _, _⟩ := tet_face_sound sq hs i A AP AB AC AD _ h
   simp only [TetRes.ok.injEq] at hres
-  obtain ⟨hpp, _⟩ := hres
-  refine ⟨by rw [hpp], ?_, ?_⟩
+  obtain ⟨hpp, hl⟩ := hres
+  refine ⟨by rw [hpp], ?_, ?_, by rw [hpp, hl]; exact hloc b0 b1 b2 h0.le h1.le h2.le hsum⟩
   · rw [hpp]; exact htri b0 b1 b2 h0.le h1.le h2.le hsum
   · intro q hq
     obtain ⟨β, γ, δ, hδ, e⟩ := hrep q hq
@@ -127,45 +158,45 @@ private theorem tetMem_d (s : Tetrahedron K) : TetBdry s s.d :=
 set_option maxHeartbeats 1600000 in
 /-- every vertex / edge / face answer of the tetrahedron projection is a point of the boundary of the tetrahedron, flagged
 `false`, and no member is closer to the query point -/
-theorem tet_project_nearest (hs : LawfulSqrt sq) (s : Tetrahedron K) (pt : V3 K) (solid : Bool) (pp : PP3 K) (l : TetLoc K)
+private theorem tet_cascade (hs : LawfulSqrt sq) (s : Tetrahedron K) (pt : V3 K) (solid : Bool) (pp : PP3 K) (l : TetLoc K)
     (h : letI := fieldNum K sq; s.projectLoc pt solid = TetRes.ok pp l) (hl : l ≠ TetLoc.solid) :
-    pp.inside = false ∧ TetBdry s pp.pt ∧ ∀ q, TetMem s q → dist2K pt pp.pt ≤ dist2K pt q := by
+    pp.inside = false ∧ TetBdry s pp.pt ∧ (∀ q, TetMem s q → dist2K pt pp.pt ≤ dist2K pt q) ∧ TetLocOk s l pp.pt := by
   letI := fieldNum K sq
   simp only [Tetrahedron.projectLoc, edge_fst sq, edge_snd sq] at h
   split at h
   rename_i hv
   · simp only [TetRes.ok.injEq] at h
     obtain ⟨h1, h2⟩ := h
-    subst h1
+    subst h1 h2
     simp only [Bool.and_eq_true, decide_eq_true_eq] at hv
-    refine ⟨rfl, tetMem_a s, fun q hq => tet_vertex_a_optimal sq s pt q hq ⟨hv.1.1, hv.1.2, hv.2⟩⟩
+    refine ⟨rfl, tetMem_a s, fun q hq => tet_vertex_a_optimal sq s pt q hq ⟨hv.1.1, hv.1.2, hv.2⟩, by simp [TetLocOk, tetVertexOf]⟩
   split at h
   rename_i hv0 hv
   · simp only [TetRes.ok.injEq] at h
     obtain ⟨h1, h2⟩ := h
-    subst h1
+    subst h1 h2
     simp only [Bool.and_eq_true, decide_eq_true_eq] at hv
-    refine ⟨rfl, tetMem_b s, fun q hq => tet_vertex_b_optimal sq s pt q hq ⟨hv.1.1, hv.1.2, hv.2⟩⟩
+    refine ⟨rfl, tetMem_b s, fun q hq => tet_vertex_b_optimal sq s pt q hq ⟨hv.1.1, hv.1.2, hv.2⟩, by simp [TetLocOk, tetVertexOf]⟩
   split at h
   rename_i hv1 hv
   · simp only [TetRes.ok.injEq] at h
     obtain ⟨h1, h2⟩ := h
-    subst h1
+    subst h1 h2
     simp only [Bool.and_eq_true, decide_eq_true_eq] at hv
-    refine ⟨rfl, tetMem_c s, fun q hq => tet_vertex_c_optimal sq s pt q hq ⟨hv.1.1, hv.1.2, hv.2⟩⟩
+    refine ⟨rfl, tetMem_c s, fun q hq => tet_vertex_c_optimal sq s pt q hq ⟨hv.1.1, hv.1.2, hv.2⟩, by simp [TetLocOk, tetVertexOf]⟩
   split at h
   rename_i hv2 hv
   · simp only [TetRes.ok.injEq] at h
     obtain ⟨h1, h2⟩ := h
-    subst h1
+    subst h1 h2
     simp only [Bool.and_eq_true, decide_eq_true_eq] at hv
-    refine ⟨rfl, tetMem_d s, fun q hq => tet_vertex_d_optimal sq s pt q hq ⟨hv.1.1, hv.1.2, hv.2⟩⟩
+    refine ⟨rfl, tetMem_d s, fun q hq => tet_vertex_d_optimal sq s pt q hq ⟨hv.1.1, hv.1.2, hv.2⟩, by simp [TetLocOk, tetVertexOf]⟩
   split at h
   · rename_i r he
     simp only [TetRes.ok.injEq] at h
     obtain ⟨h1, h2⟩ := h
-    subst h1
-    refine edge_finish sq s pt 0 s.a (pt.sub s.a) (s.b.sub s.a) (s.c.sub s.a) (s.d.sub s.a) _ _ _ r (by v3ring) (by v3ring) ?_ (by v3ring) he ?_ ?_
+    subst h1 h2
+    refine edge_finish sq s pt 0 s.a (pt.sub s.a) (s.b.sub s.a) (s.c.sub s.a) (s.d.sub s.a) _ _ _ r (by v3ring) (by v3ring) ?_ (by v3ring) he ?_ ?_ ?_
     · simp only [V3.dot, V3.sub]; ring
     · rintro q ⟨β, γ, δ, hβ, hγ, hδ, hsum, hx, hy, hz⟩
       refine ⟨β, γ, δ, by linarith, by linarith, ?_⟩
@@ -173,12 +204,16 @@ theorem tet_project_nearest (hs : LawfulSqrt sq) (s : Tetrahedron K) (pt : V3 K)
     · intro u hu0 hu1
       refine tetBdry_bary s (1 - u) u 0 0 _ (by linarith) (by linarith) (by linarith) (by linarith) (by ring) (by simp) ?_ ?_ ?_ <;>
         simp only [V3.add, V3.smul, V3.sub] <;> ring
+    · intro u hu0 hu1
+      simp only [TetLocOk, tetEdgeOf]
+      refine ⟨by linarith, hu0, by ring, _, _, rfl, ?_⟩
+      apply v3_eq <;> simp only [V3.add, V3.smul, V3.sub] <;> ring
   split at h
   · rename_i r he
     simp only [TetRes.ok.injEq] at h
     obtain ⟨h1, h2⟩ := h
-    subst h1
-    refine edge_finish sq s pt 1 s.a (pt.sub s.a) (s.c.sub s.a) (s.d.sub s.a) (s.b.sub s.a) _ _ _ r (by v3ring) (by v3ring) ?_ (by v3ring) he ?_ ?_
+    subst h1 h2
+    refine edge_finish sq s pt 1 s.a (pt.sub s.a) (s.c.sub s.a) (s.d.sub s.a) (s.b.sub s.a) _ _ _ r (by v3ring) (by v3ring) ?_ (by v3ring) he ?_ ?_ ?_
     · simp only [V3.dot, V3.sub]; ring
     · rintro q ⟨β, γ, δ, hβ, hγ, hδ, hsum, hx, hy, hz⟩
       refine ⟨γ, δ, β, by linarith, by linarith, ?_⟩
@@ -186,12 +221,16 @@ theorem tet_project_nearest (hs : LawfulSqrt sq) (s : Tetrahedron K) (pt : V3 K)
     · intro u hu0 hu1
       refine tetBdry_bary s (1 - u) 0 u 0 _ (by linarith) (by linarith) (by linarith) (by linarith) (by ring) (by simp) ?_ ?_ ?_ <;>
         simp only [V3.add, V3.smul, V3.sub] <;> ring
+    · intro u hu0 hu1
+      simp only [TetLocOk, tetEdgeOf]
+      refine ⟨by linarith, hu0, by ring, _, _, rfl, ?_⟩
+      apply v3_eq <;> simp only [V3.add, V3.smul, V3.sub] <;> ring
   split at h
   · rename_i r he
     simp only [TetRes.ok.injEq] at h
     obtain ⟨h1, h2⟩ := h
-    subst h1
-    refine edge_finish sq s pt 2 s.a (pt.sub s.a) (s.d.sub s.a) (s.b.sub s.a) (s.c.sub s.a) _ _ _ r (by v3ring) (by v3ring) ?_ (by v3ring) he ?_ ?_
+    subst h1 h2
+    refine edge_finish sq s pt 2 s.a (pt.sub s.a) (s.d.sub s.a) (s.b.sub s.a) (s.c.sub s.a) _ _ _ r (by v3ring) (by v3ring) ?_ (by v3ring) he ?_ ?_ ?_
     · simp only [V3.dot, V3.sub]; ring
     · rintro q ⟨β, γ, δ, hβ, hγ, hδ, hsum, hx, hy, hz⟩
       refine ⟨δ, β, γ, by linarith, by linarith, ?_⟩
@@ -199,12 +238,16 @@ theorem tet_project_nearest (hs : LawfulSqrt sq) (s : Tetrahedron K) (pt : V3 K)
     · intro u hu0 hu1
       refine tetBdry_bary s (1 - u) 0 0 u _ (by linarith) (by linarith) (by linarith) (by linarith) (by ring) (by simp) ?_ ?_ ?_ <;>
         simp only [V3.add, V3.smul, V3.sub] <;> ring
+    · intro u hu0 hu1
+      simp only [TetLocOk, tetEdgeOf]
+      refine ⟨by linarith, hu0, by ring, _, _, rfl, ?_⟩
+      apply v3_eq <;> simp only [V3.add, V3.smul, V3.sub] <;> ring
   split at h
   · rename_i r he
     simp only [TetRes.ok.injEq] at h
     obtain ⟨h1, h2⟩ := h
-    subst h1
-    refine edge_finish sq s pt 3 s.b (pt.sub s.b) (s.c.sub s.b) (s.a.sub s.b) (s.d.sub s.b) _ _ _ r (by v3ring) (by v3ring) ?_ (by v3ring) he ?_ ?_
+    subst h1 h2
+    refine edge_finish sq s pt 3 s.b (pt.sub s.b) (s.c.sub s.b) (s.a.sub s.b) (s.d.sub s.b) _ _ _ r (by v3ring) (by v3ring) ?_ (by v3ring) he ?_ ?_ ?_
     · simp only [V3.dot, V3.sub]; ring
     · rintro q ⟨β, γ, δ, hβ, hγ, hδ, hsum, hx, hy, hz⟩
       refine ⟨γ, (1 - β - γ - δ), δ, by linarith, by linarith, ?_⟩
@@ -212,12 +255,16 @@ theorem tet_project_nearest (hs : LawfulSqrt sq) (s : Tetrahedron K) (pt : V3 K)
     · intro u hu0 hu1
       refine tetBdry_bary s 0 (1 - u) u 0 _ (by linarith) (by linarith) (by linarith) (by linarith) (by ring) (by simp) ?_ ?_ ?_ <;>
         simp only [V3.add, V3.smul, V3.sub] <;> ring
+    · intro u hu0 hu1
+      simp only [TetLocOk, tetEdgeOf]
+      refine ⟨by linarith, hu0, by ring, _, _, rfl, ?_⟩
+      apply v3_eq <;> simp only [V3.add, V3.smul, V3.sub] <;> ring
   split at h
   · rename_i r he
     simp only [TetRes.ok.injEq] at h
     obtain ⟨h1, h2⟩ := h
-    subst h1
-    refine edge_finish sq s pt 4 s.b (pt.sub s.b) (s.d.sub s.b) (s.c.sub s.b) (s.a.sub s.b) _ _ _ r (by v3ring) (by v3ring) ?_ (by v3ring) he ?_ ?_
+    subst h1 h2
+    refine edge_finish sq s pt 4 s.b (pt.sub s.b) (s.d.sub s.b) (s.c.sub s.b) (s.a.sub s.b) _ _ _ r (by v3ring) (by v3ring) ?_ (by v3ring) he ?_ ?_ ?_
     · simp only [V3.dot, V3.sub]; ring
     · rintro q ⟨β, γ, δ, hβ, hγ, hδ, hsum, hx, hy, hz⟩
       refine ⟨δ, γ, (1 - β - γ - δ), by linarith, by linarith, ?_⟩
@@ -225,12 +272,16 @@ theorem tet_project_nearest (hs : LawfulSqrt sq) (s : Tetrahedron K) (pt : V3 K)
     · intro u hu0 hu1
       refine tetBdry_bary s 0 (1 - u) 0 u _ (by linarith) (by linarith) (by linarith) (by linarith) (by ring) (by simp) ?_ ?_ ?_ <;>
         simp only [V3.add, V3.smul, V3.sub] <;> ring
+    · intro u hu0 hu1
+      simp only [TetLocOk, tetEdgeOf]
+      refine ⟨by linarith, hu0, by ring, _, _, rfl, ?_⟩
+      apply v3_eq <;> simp only [V3.add, V3.smul, V3.sub] <;> ring
   split at h
   · rename_i r he
     simp only [TetRes.ok.injEq] at h
     obtain ⟨h1, h2⟩ := h
-    subst h1
-    refine edge_finish sq s pt 5 s.c (pt.sub s.c) (s.d.sub s.c) (s.a.sub s.c) (s.b.sub s.c) _ _ _ r (by v3ring) (by v3ring) ?_ (by v3ring) he ?_ ?_
+    subst h1 h2
+    refine edge_finish sq s pt 5 s.c (pt.sub s.c) (s.d.sub s.c) (s.a.sub s.c) (s.b.sub s.c) _ _ _ r (by v3ring) (by v3ring) ?_ (by v3ring) he ?_ ?_ ?_
     · simp only [V3.dot, V3.sub]; ring
     · rintro q ⟨β, γ, δ, hβ, hγ, hδ, hsum, hx, hy, hz⟩
       refine ⟨δ, (1 - β - γ - δ), β, by linarith, by linarith, ?_⟩
@@ -238,11 +289,15 @@ theorem tet_project_nearest (hs : LawfulSqrt sq) (s : Tetrahedron K) (pt : V3 K)
     · intro u hu0 hu1
       refine tetBdry_bary s 0 0 (1 - u) u _ (by linarith) (by linarith) (by linarith) (by linarith) (by ring) (by simp) ?_ ?_ ?_ <;>
         simp only [V3.add, V3.smul, V3.sub] <;> ring
+    · intro u hu0 hu1
+      simp only [TetLocOk, tetEdgeOf]
+      refine ⟨by linarith, hu0, by ring, _, _, rfl, ?_⟩
+      apply v3_eq <;> simp only [V3.add, V3.smul, V3.sub] <;> ring
   split at h
   · rename_i r hf
     subst h
     refine face_finish sq hs s pt 0 s.a s.b s.c (pt.sub s.a) (pt.sub s.b) (pt.sub s.c) (s.b.sub s.a) (s.c.sub s.a) (s.d.sub s.a) _ _ _ pp l
-      (by v3ring) (by v3ring) (by v3ring) (by v3ring) ?_ ?_ ?_ (by v3ring) hf ?_ ?_
+      (by v3ring) (by v3ring) (by v3ring) (by v3ring) ?_ ?_ ?_ (by v3ring) hf ?_ ?_ ?_
     · simp only [V3.dot, V3.sub, V3.cross, V3.neg] <;> ring
     · simp only [V3.dot, V3.sub, V3.cross, V3.neg] <;> ring
     · simp only [V3.dot, V3.sub, V3.cross, V3.neg] <;> ring
@@ -252,12 +307,16 @@ theorem tet_project_nearest (hs : LawfulSqrt sq) (s : Tetrahedron K) (pt : V3 K)
     · intro b0 b1 b2 h0 h1 h2 hsum
       refine tetBdry_bary s b0 b1 b2 0 _ (by linarith) (by linarith) (by linarith) (by linarith) (by linarith) (by simp) ?_ ?_ ?_ <;>
         simp only [V3.add, V3.smul, V3.sub] <;> ring
+    · intro b0 b1 b2 h0 h1 h2 hsum
+      simp only [TetLocOk, tetFaceOf]
+      refine ⟨h0, h1, h2, hsum, _, _, _, rfl, ?_⟩
+      apply v3_eq <;> simp only [V3.add, V3.smul, V3.sub] <;> ring
   split at h
   · rename_i r hf
     subst h
     rw [tet_face_perm12, tet_face_perm23] at hf
     refine face_finish sq hs s pt 1 s.a s.b s.d (pt.sub s.a) (pt.sub s.b) (pt.sub s.d) (s.b.sub s.a) (s.d.sub s.a) (s.c.sub s.a) _ _ _ pp l
-      (by v3ring) (by v3ring) (by v3ring) (by v3ring) ?_ ?_ ?_ (by v3ring) hf ?_ ?_
+      (by v3ring) (by v3ring) (by v3ring) (by v3ring) ?_ ?_ ?_ (by v3ring) hf ?_ ?_ ?_
     · simp only [V3.dot, V3.sub, V3.cross, V3.neg] <;> ring
     · simp only [V3.dot, V3.sub, V3.cross, V3.neg] <;> ring
     · simp only [V3.dot, V3.sub, V3.cross, V3.neg] <;> ring
@@ -267,11 +326,15 @@ theorem tet_project_nearest (hs : LawfulSqrt sq) (s : Tetrahedron K) (pt : V3 K)
     · intro b0 b1 b2 h0 h1 h2 hsum
       refine tetBdry_bary s b0 b1 0 b2 _ (by linarith) (by linarith) (by linarith) (by linarith) (by linarith) (by simp) ?_ ?_ ?_ <;>
         simp only [V3.add, V3.smul, V3.sub] <;> ring
+    · intro b0 b1 b2 h0 h1 h2 hsum
+      simp only [TetLocOk, tetFaceOf]
+      refine ⟨h0, h1, h2, hsum, _, _, _, rfl, ?_⟩
+      apply v3_eq <;> simp only [V3.add, V3.smul, V3.sub] <;> ring
   split at h
   · rename_i r hf
     subst h
     refine face_finish sq hs s pt 2 s.a s.c s.d (pt.sub s.a) (pt.sub s.c) (pt.sub s.d) (s.c.sub s.a) (s.d.sub s.a) (s.b.sub s.a) _ _ _ pp l
-      (by v3ring) (by v3ring) (by v3ring) (by v3ring) ?_ ?_ ?_ (by v3ring) hf ?_ ?_
+      (by v3ring) (by v3ring) (by v3ring) (by v3ring) ?_ ?_ ?_ (by v3ring) hf ?_ ?_ ?_
     · simp only [V3.dot, V3.sub, V3.cross, V3.neg] <;> ring
     · simp only [V3.dot, V3.sub, V3.cross, V3.neg] <;> ring
     · simp only [V3.dot, V3.sub, V3.cross, V3.neg] <;> ring
@@ -281,11 +344,15 @@ theorem tet_project_nearest (hs : LawfulSqrt sq) (s : Tetrahedron K) (pt : V3 K)
     · intro b0 b1 b2 h0 h1 h2 hsum
       refine tetBdry_bary s b0 0 b1 b2 _ (by linarith) (by linarith) (by linarith) (by linarith) (by linarith) (by simp) ?_ ?_ ?_ <;>
         simp only [V3.add, V3.smul, V3.sub] <;> ring
+    · intro b0 b1 b2 h0 h1 h2 hsum
+      simp only [TetLocOk, tetFaceOf]
+      refine ⟨h0, h1, h2, hsum, _, _, _, rfl, ?_⟩
+      apply v3_eq <;> simp only [V3.add, V3.smul, V3.sub] <;> ring
   split at h
   · rename_i r hf
     subst h
     refine face_finish sq hs s pt 3 s.b s.c s.d (pt.sub s.b) (pt.sub s.c) (pt.sub s.d) (s.c.sub s.b) (s.d.sub s.b) (s.b.sub s.a).neg _ _ _ pp l
-      (by v3ring) (by v3ring) (by v3ring) (by v3ring) ?_ ?_ ?_ (by v3ring) hf ?_ ?_
+      (by v3ring) (by v3ring) (by v3ring) (by v3ring) ?_ ?_ ?_ (by v3ring) hf ?_ ?_ ?_
     · simp only [V3.dot, V3.sub, V3.cross, V3.neg] <;> ring
     · simp only [V3.dot, V3.sub, V3.cross, V3.neg] <;> ring
     · simp only [V3.dot, V3.sub, V3.cross, V3.neg] <;> ring
@@ -295,10 +362,29 @@ theorem tet_project_nearest (hs : LawfulSqrt sq) (s : Tetrahedron K) (pt : V3 K)
     · intro b0 b1 b2 h0 h1 h2 hsum
       refine tetBdry_bary s 0 b0 b1 b2 _ (by linarith) (by linarith) (by linarith) (by linarith) (by linarith) (by simp) ?_ ?_ ?_ <;>
         simp only [V3.add, V3.smul, V3.sub] <;> ring
+    · intro b0 b1 b2 h0 h1 h2 hsum
+      simp only [TetLocOk, tetFaceOf]
+      refine ⟨h0, h1, h2, hsum, _, _, _, rfl, ?_⟩
+      apply v3_eq <;> simp only [V3.add, V3.smul, V3.sub] <;> ring
   split at h
   · exact absurd h (by simp)
   · simp only [TetRes.ok.injEq] at h
     exact absurd h.2.symm hl
+
+/-- every vertex / edge / face answer of the tetrahedron projection is a point of the boundary of the tetrahedron, flagged
+`false`, and no member is closer to the query point -/
+theorem tet_project_nearest (hs : LawfulSqrt sq) (s : Tetrahedron K) (pt : V3 K) (solid : Bool) (pp : PP3 K) (l : TetLoc K)
+    (h : letI := fieldNum K sq; s.projectLoc pt solid = TetRes.ok pp l) (hl : l ≠ TetLoc.solid) :
+    pp.inside = false ∧ TetBdry s pp.pt ∧ ∀ q, TetMem s q → dist2K pt pp.pt ≤ dist2K pt q := by
+  obtain ⟨h1, h2, h3, _⟩ := tet_cascade sq hs s pt solid pp l h hl
+  exact ⟨h1, h2, h3⟩
+
+/-- the location tag reproduces the returned point barycentrically, with the code's vertex / edge / face numbering -/
+theorem tet_project_location (hs : LawfulSqrt sq) (s : Tetrahedron K) (pt : V3 K) (solid : Bool) (pp : PP3 K) (l : TetLoc K)
+    (h : letI := fieldNum K sq; s.projectLoc pt solid = TetRes.ok pp l) : TetLocOk s l pp.pt := by
+  by_cases hl : l = TetLoc.solid
+  · subst hl; simp [TetLocOk]
+  · exact (tet_cascade sq hs s pt solid pp l h hl).2.2.2
 
 private theorem face_no_panic (hs : LawfulSqrt sq) (i : Nat)
     (A B C AP BP CP AB AC AD : V3 K) (d1 d2 d3 : K)
